@@ -557,6 +557,17 @@ example : (run exVals exReg .direct .tabular (.int 2) 0 [10, 11, 12, 13, 14, 15]
 -- update_predict over new data restores the cutoff 3: the window is [12, 13], not the tail of the grown series
 example : (run exVals exReg .direct .tabular (.int 2) 0 [10, 11, 12, 13] none (some [1])
     (.updPredict 4 [20, 30, 40] false) none none).2 = .ok [(4, 63)] := by rfl
+-- built through the deprecated factory; update_predict over OVERLAPPING data is refused (X passed): the next predict
+-- still answers from cutoff 5 with the window [14, 15]
+example : (runHist exVals exReg .reducedForecaster 1 .direct .tabular (.int 2) 0 [10, 11, 12, 13, 14, 15] none (some [1]) none
+    [.updPredict 2 [20, 30, 40] (some [[1], [2], [3]]) false, .predict none none]).2 =
+    .ok [.err .notimpl, .forecast [(6, 98)]] := by rfl
+-- built through the strategy class with step_length 3; the regressor raises on its 2nd predict call, in the middle
+-- of update_predict's loop: label 4 has been merged, the cutoff is back at 3, the window is [12, 13]
+example : (runHist exVals exReg .cls 3 .direct .tabular (.int 2) 0 [10, 11, 12, 13] none (some [1]) (some 1)
+    [.updPredict 4 [20, 30, 40, 50] none false, .predict none none]).2 =
+    .ok [.err .other, .forecast [(4, 63)]] := by rfl
+example : construct .cls 3 = .ok 3 ∧ construct .reducedRegressionForecaster 1 = .ok 1 := ⟨rfl, rfl⟩
 -- a non-finite last window forecasts NaN (outside `FiniteLastWindow`)
 example : (run exVals exReg .direct .tabular (.int 2) 0 [10, 11, 12, -1] none (some [1]) .no none none).2 =
     .ok [(4, -1)] := by rfl
